@@ -1,14 +1,14 @@
-\* quick: 2 calls x 2 connections, 1 drop
+\* thorough: 3 calls x 1 connection, 1 drop, 1 noise packet (reduced interleaving RedSpec, see LiteClient_MC.tla)
 CONSTANTS
-  Calls = {c1, c2}
-  NConns = 2
+  Calls = {c1, c2, c3}
+  NConns = 1
   Unknown = unk
   MaxDrops = 1
-  MaxNoise = 0
+  MaxNoise = 1
   MaxSilence = 0
   StrictRst = TRUE
   MaxBacklog = 3
-SPECIFICATION Spec
+SPECIFICATION RedSpec
 SYMMETRY Sym
 VIEW View
 CONSTRAINT Bounded
